@@ -31,8 +31,8 @@ type c13L struct {
 }
 
 func init() {
-	steps := []string{"sessionless", "discovery", "open", "rakp1", "rakp3", "insession", "close", "sdr-info", "sdr-reserve", "sdr-get1", "sdr-get2", "sdr-get3", "sdr-get4", "sdr-final", "wrongpw"}
-	faults := []string{"blackhole", "late", "garbage", "tempcode", "trunc", "ffrun", "drop-once"}
+	steps := []string{"sessionless", "discovery", "open", "rakp1", "rakp3", "insession", "close", "sdr-info", "sdr-reserve", "sdr-get1", "sdr-get2", "sdr-get3", "sdr-get4", "sdr-final", "wrongpw", "close2"}
+	faults := []string{"blackhole", "late", "garbage", "tempcode", "trunc", "ffrun", "drop-once", "repo-modified"}
 	register(&Check{
 		ID:      "C13",
 		Level:   "fault_enumeration",
@@ -49,7 +49,10 @@ func init() {
 			for _, st := range steps {
 				for fi, f := range faults {
 					for ri, rt := range ratios {
-						if tier == "quick" && (fi+ri+len(st))%3 != int(seed%3+3)%3 && !(st == "wrongpw" && f == "blackhole" && ri < 2) && !(f == "drop-once" && ri == 2 && (st == "sdr-get2" || st == "sdr-get4" || st == "discovery")) {
+						if f == "repo-modified" && (len(st) != 8 || st[:7] != "sdr-get") {
+							continue // the repository can only change under a retrieval
+						}
+						if tier == "quick" && (fi+ri+len(st))%3 != int(seed%3+3)%3 && !(f == "repo-modified" && ri != 2 && st == "sdr-get3") && !(st == "wrongpw" && f == "blackhole" && ri < 2) && !(f == "drop-once" && ri == 2 && (st == "sdr-get2" || st == "sdr-get4" || st == "discovery")) {
 							continue
 						}
 						cs = append(cs, ev.MkCase("udp", c13P{Step: st, Fault: f, Timeout: rt[0], Deadline: rt[1], Seed: seed}))
@@ -124,7 +127,7 @@ func c13Match(step string, b *refbmc.BMC, getCount *int) bool {
 		return e.Kind == "rakp3"
 	case "insession":
 		return e.Kind == "session-ipmi" && e.NetFn == 6 && e.Cmd == 0x01
-	case "close":
+	case "close", "close2":
 		return e.Kind == "session-ipmi" && e.Cmd == 0x3c
 	case "sdr-info":
 		return e.Kind == "session-ipmi" && e.NetFn == 0x0a && e.Cmd == 0x20
@@ -169,7 +172,20 @@ func c13UDP(run *ev.Run, p c13P, cs ev.Case) string {
 	getCount := 0
 	validSent := 0
 	dropped := 0
+	if p.Fault == "repo-modified" {
+		// no reply is lost or damaged: the repository's addition timestamp moves during the walk
+		want := int(p.Step[len(p.Step)-1] - '0')
+		repo.BeforeGet = func(nth int, rp *refbmc.Repo) {
+			if nth == want && !faultOn {
+				faultOn = true
+				rp.ModifyLocked(rp.Recs, false, false)
+			}
+		}
+	}
 	srv.SetFault(func(n int, req, reply []byte) ([][]byte, time.Duration) {
+		if p.Fault == "repo-modified" {
+			return [][]byte{reply}, 0
+		}
 		if !faultOn && c13Match(p.Step, b, &getCount) {
 			faultOn = true
 		}
@@ -229,7 +245,7 @@ func c13UDP(run *ev.Run, p c13P, cs ev.Case) string {
 		opts.Password = append(append([]byte(nil), opts.Password...), 0x78)
 	}
 	var sess *bmc.V2Session
-	needSession := p.Step == "insession" || p.Step == "close" || len(p.Step) > 4 && p.Step[:4] == "sdr-"
+	needSession := p.Step == "insession" || p.Step == "close" || p.Step == "close2" || len(p.Step) > 4 && p.Step[:4] == "sdr-"
 	if needSession {
 		sctx, scancel := context.WithTimeout(context.Background(), 15*time.Second)
 		sess, err = st.NewV2Session(sctx, opts)
@@ -238,6 +254,12 @@ func c13UDP(run *ev.Run, p c13P, cs ev.Case) string {
 			run.Violation("C13:setup", fmt.Sprintf("fault-free session setup failed: %v", err), cs, nil)
 			return "violated"
 		}
+	}
+	if p.Step == "close2" {
+		// a first Close that meets the fault (and, for most faults, fails); the measured call is the caller trying again
+		c0, cancel0 := context.WithTimeout(context.Background(), 150*time.Millisecond)
+		safe(func() { sess.Close(c0) })
+		cancel0()
 	}
 	deadline := time.Now().Add(time.Duration(p.Deadline) * time.Millisecond)
 	ctx, cancel := context.WithDeadline(context.Background(), deadline)
@@ -266,7 +288,7 @@ func c13UDP(run *ev.Run, p c13P, cs ev.Case) string {
 				_, callErr = st.NewV2Session(ctx, opts)
 			case "insession":
 				_, callErr = sess.GetDeviceID(ctx)
-			case "close":
+			case "close", "close2":
 				callErr = sess.Close(ctx)
 			default:
 				var m bmc.SDRRepository
@@ -325,7 +347,7 @@ func c13UDP(run *ev.Run, p c13P, cs ev.Case) string {
 		run.Violation("C13:success-without-valid-response:"+p.Step, fmt.Sprintf("%s: retrieval reported success with %d of the 3 records although a reply was lost on the way", desc, sdrCount), cs, nil)
 		return "violated"
 	}
-	if callErr == nil && (p.Deadline <= 0 || (faultOn && p.Fault != "late" && p.Fault != "drop-once")) {
+	if callErr == nil && (p.Deadline <= 0 || (faultOn && p.Fault != "late" && p.Fault != "drop-once" && p.Fault != "repo-modified")) {
 		run.Violation("C13:success-without-valid-response:"+p.Step, fmt.Sprintf("%s: call reported success although no valid response could have been obtained", desc), cs, nil)
 		return "violated"
 	}
@@ -394,7 +416,7 @@ func c13Mem(run *ev.Run, l c13L, cs ev.Case) {
 	}
 	var sess *bmc.V2Session
 	var err error
-	needSession := l.Step == "insession" || l.Step == "close" || len(l.Step) > 4 && l.Step[:4] == "sdr-"
+	needSession := l.Step == "insession" || l.Step == "close" || l.Step == "close2" || len(l.Step) > 4 && l.Step[:4] == "sdr-"
 	if needSession {
 		sctx, scancel := context.WithTimeout(context.Background(), 15*time.Second)
 		sess, err = st.NewV2Session(sctx, opts)
@@ -422,7 +444,7 @@ func c13Mem(run *ev.Run, l c13L, cs ev.Case) {
 			_, callErr = st.NewV2Session(ctx, opts)
 		case "insession":
 			_, callErr = sess.GetDeviceID(ctx)
-		case "close":
+		case "close", "close2":
 			callErr = sess.Close(ctx)
 		default:
 			_, callErr = bmc.RetrieveSDRRepository(ctx, sess)
